@@ -26,7 +26,11 @@ for i in range(1, 21):
     _, S = driver.suites_for(pid, random.Random(1), "quick")
     for (name, cfg, kind, cases) in S:
         if cfg == "std":
-            (co if kind == "co" else fc).extend(cases)
+            if kind == "cov":
+                co.extend(cases)
+                co.extend(c.replace(" co:", " cov:", 1) for c in cases)
+            else:
+                (co if kind == "co" else fc).extend(cases)
 env = dict(os.environ, CARGO_NET_OFFLINE="true", RUSTFLAGS="-C instrument-coverage")
 r = subprocess.run(["cargo", "+nightly", "build", "-q", "--offline", "--features", "fc-std", "--target-dir", os.path.join(W, "target")],
                    cwd=os.path.join(W, "h"), env=env, text=True, capture_output=True)
